@@ -5,6 +5,7 @@ import (
 	"encoding/base32"
 	"fmt"
 	"math/big"
+	"net/url"
 	"strings"
 
 	"github.com/ja7ad/otp"
@@ -995,6 +996,146 @@ func genC15(r *rng, n int, emit func(string)) {
 		case 9:
 			s := pick(r, names)
 			emit(pick(r, []string{"known ", "fromraws "}) + hxs(s[:r.intn(len(s)+1)]))
+		}
+	}
+}
+
+// ---------------- C16: provisioning URLs ----------------
+func init() { streams["c16"] = genC16 }
+
+var urlAlphabet = []string{" ", "%", "/", "?", "#", "&", "=", "+", "@", ":", ";", ",", "%41", "%2F", "%zz", "%", "é", "日本", "\xff", "\x00", "\x7f", "\n", "a", "B", "7", "-", "_", ".", "~", "!", "$", "'", "(", ")", "*", "[", "]", "<", ">", "\"", "\\", "^", "`", "{", "|", "}"}
+
+func urlString(r *rng, maxParts int, noColon bool) string {
+	var sb strings.Builder
+	n := 1 + r.intn(maxParts)
+	for i := 0; i < n; i++ {
+		var s string
+		switch r.intn(3) {
+		case 0:
+			s = pick(r, urlAlphabet)
+		case 1:
+			s = string(rune('a' + r.intn(26)))
+		default:
+			s = pick(r, []string{"My Company", "alice@example.com", "Ex", "A", "bob", "ACME Co.", "x y"})
+		}
+		if noColon {
+			s = strings.ReplaceAll(s, ":", "")
+		}
+		sb.WriteString(s)
+	}
+	return sb.String()
+}
+
+func genURLParamLine(r *rng, valid bool) string {
+	issuer := urlString(r, 4, true)
+	account := urlString(r, 4, false)
+	secret, _ := genSecret(r)
+	if r.chance(1, 3) {
+		secret = urlString(r, 5, false)
+	}
+	digits := pick(r, []uint64{0, 6, 8, 9, 10, 1, 7, 255, 11})
+	alg := pick(r, []uint64{0, 1, 2, 0, 1, 2, 3, 255})
+	period := pick(r, []uint64{0, 30, 60, 1, 29, 3600, 1 << 31, 1<<31 - 1, 1<<32 + 5, 1<<63 - 1, 1 << 63, 1<<64 - 1})
+	if !valid {
+		switch r.intn(4) {
+		case 0:
+			issuer = ""
+		case 1:
+			account = ""
+		case 2:
+			secret = ""
+		case 3:
+			issuer = issuer + ":" + urlString(r, 2, false)
+		}
+	}
+	return fmt.Sprintf("%s %s %s %d %d %d", hxs(issuer), hxs(account), hxs(secret), digits, alg, period)
+}
+
+func numText(r *rng) string {
+	switch r.intn(6) {
+	case 0:
+		return fmt.Sprint(r.intn(300))
+	case 1:
+		return pick(r, []string{"0", "6", "8", "255", "256", "262", "-1", "-0", "+7", " 7", "7 ", "07", "0x10", "1e3", "", "six", "9223372036854775807", "9223372036854775808",
+			"-9223372036854775808", "-9223372036854775809", "18446744073709551615", "18446744073709551616", "4294967296", "2147483648", "30", "٣٠", "1_0"})
+	case 2:
+		return fmt.Sprint(int64(r.next()))
+	case 3:
+		return fmt.Sprint(r.next())
+	case 4:
+		return fmt.Sprint(r.intn(1 << 20))
+	default:
+		return urlString(r, 2, false)
+	}
+}
+
+func genC16(r *rng, n int, emit func(string)) {
+	for _, s := range []string{"", "6", "8", "9", "10", "7", "06", " 6", "six", "10 "} {
+		emit("digstr " + hxs(s))
+	}
+	for _, s := range []string{"", "SHA1", "SHA256", "SHA512", "sha1", "SHA-1", "MD5", "SHA384"} {
+		emit("algstr " + hxs(s))
+	}
+	for i := 0; i < 6; i++ {
+		emit(fmt.Sprintf("algname %d", []int{0, 1, 2, 3, 128, 255}[i]))
+		emit(fmt.Sprintf("digint %d", []int{0, 6, 8, 10, 11, 255}[i]))
+	}
+	emit("purl -")
+	fixed := []string{"otpauth://totp/Example:alice@example.com?secret=JBSWY3DPEHPK3PXP&issuer=Example&algorithm=SHA1&digits=6&period=30",
+		"otpauth://hotp/Example:alice?secret=JBSWY3DPEHPK3PXP&counter=5", "otpauth://TOTP/a:b?secret=x", "OTPAUTH://totp/a:b?secret=x", "otpauth://totp/a?secret=x",
+		"otpauth://totp/My%20Company:bob?secret=x", "otpauth://totp/My+Company:bob?secret=a+b&issuer=My+Company", "otpauth://totp/a%3Ab:c?secret=x",
+		"otpauth://totp/a:b?digits=262", "otpauth://totp/a:b?period=-1", "otpauth://totp/a:b?digits=+7", "otpauth://totp/a:b?digits=%2B7", "otpauth://totp/a:b?digits=7;period=9",
+		"otpauth://totp/a:b?digits=7&digits=8", "otpauth://totp/a:b?algorithm=sha256", "otpauth://totp/a:b?algorithm=%C5%BFha1", "otpauth://totp/a:b?secret=%zz&digits=8", "otpauth://totp/a:b?=x&&digits=8",
+		"otpauth://user@totp/a:b?secret=x", "otpauth://user:pw@totp/a:b?secret=x", "otpauth://totp:80/a:b", "otpauth://totp:x/a:b", "otpauth://%74otp/a:b", "otpauth://to%tp/a:b", "otpauth://[::1]/a:b",
+		"otpauth:totp/a:b", "otpauth:/totp/a:b", "otpauth:///a:b", "//totp/a:b", "totp/a:b", "a:b", "/a:b", ":a", "1a:b", "a+b-c.d:e", "*", "otpauth://totp/a:b?", "otpauth://totp/a:b??", "otpauth://totp/a:b#frag",
+		"otpauth://totp/a:b#%zz", "otpauth://totp/a:b#a#b", "otpauth://totp/a b:c", "otpauth://totp/a\x7fb:c", "otpauth://totp/a\tb:c", "otpauth://tótp/a:b", "otpauth://totp/%", "otpauth://totp/%4", "otpauth://totp/%41:b",
+		"otpauth://totp", "otpauth://", "otpauth:", "otpauth://totp/é:ü?secret=é", "otpauth://ho tp/a:b", "otpauth://ho<tp/a:b", "http://a@b@c/d", "otpauth://totp//a:b", "otpauth://totp/a:b?a=1?b=2", "x://y?z"}
+	for _, s := range fixed {
+		emit("uparse " + hxs(s))
+		if u, err := url.Parse(s); err == nil && u.User == nil {
+			emit("purl " + fmtURL(u))
+			emit("ustr " + fmtURL(u))
+		}
+	}
+	for i := 0; i < n; i++ {
+		kind := pick(r, []string{"t", "h"})
+		switch r.intn(10) {
+		case 0, 1, 2:
+			emit("rturl " + kind + " " + genURLParamLine(r, r.chance(9, 10)))
+		case 3, 4:
+			emit("gurl " + kind + " " + genURLParamLine(r, r.chance(5, 6)))
+		case 5, 6: // parse-only clause: arbitrary digits / period / algorithm texts, type in any case
+			host := pick(r, []string{"totp", "hotp", "TOTP", "Hotp", "tOtP", "xotp", "", "totp ", "İotp"})
+			q := url.Values{}
+			if r.chance(3, 4) {
+				q.Set("digits", numText(r))
+			}
+			if r.chance(3, 4) {
+				q.Set("period", numText(r))
+			}
+			if r.chance(1, 2) {
+				q.Set("algorithm", pick(r, []string{"SHA1", "SHA256", "SHA512", "sha512", "Sha256", "ſha1", "SHA-1", "", "MD5", "SHA1 "}))
+			}
+			if r.chance(3, 4) {
+				q.Set("secret", urlString(r, 3, false))
+			}
+			raw := q.Encode()
+			if r.chance(1, 4) {
+				raw = strings.Replace(raw, "&", pick(r, []string{";", "&&", "&=&", "&%&"}), 1)
+			}
+			u := &url.URL{Scheme: pick(r, []string{"otpauth", "otpauth", "otpauth", "OTPAUTH", "http", ""}), Host: host,
+				Path: pick(r, []string{"/", "", "a:b", "/:"}) + urlString(r, 2, false) + pick(r, []string{":", "", ":"}) + urlString(r, 2, false), RawQuery: raw}
+			emit("purl " + fmtURL(u))
+		case 7:
+			// textual URLs over the delimiter-rich alphabet
+			s := "otpauth://" + pick(r, []string{"totp", "hotp", "TOTP", "ho%74p", "t:1", ""}) + "/" + urlString(r, 4, false) + pick(r, []string{"", "?", "?secret=", "?digits=8&period="}) + urlString(r, 2, false)
+			emit("uparse " + hxs(s))
+		case 8:
+			emit("uparse " + hxs(urlString(r, 6, false)))
+		case 9:
+			u := &url.URL{Scheme: pick(r, []string{"otpauth", "", "a"}), Host: pick(r, []string{"totp", "", "h x", "é"}), Path: pick(r, []string{"", "/", "*"}) + urlString(r, 3, false),
+				RawPath: pick(r, []string{"", "", "/x", "/%41"}), RawQuery: pick(r, []string{"", "a=b", "x"}), ForceQuery: r.chance(1, 5), Fragment: pick(r, []string{"", "", "f g", "f"})}
+			emit("ustr " + fmtURL(u))
 		}
 	}
 }
